@@ -17,10 +17,11 @@ Lemma init_Inv E u ob no G :
   Inv E (ob_secs ob) (init_gst E u ob no G).
 Proof.
   intros Hind b B HB. simpl in HB. apply nth_error_In in HB. apply repeat_spec in HB. subst B.
-  unfold blk_ok, init_blk; simpl. split; [apply repeat_length|]. split.
+  unfold blk_ok, init_blk; simpl. split; [apply repeat_length|]. split; [|split].
   - intros i p Hp. apply nth_error_In in Hp. apply repeat_spec in Hp. subst p. apply entry_ok'; auto.
   - intros H0 i p Hp. apply nth_error_In in Hp. apply repeat_spec in Hp. subst p. simpl.
     destruct (ob_secs ob); simpl in *; auto; discriminate.
+  - lia.
 Qed.
 
 (* the sequential schedule is complete and computes the sequential reading *)
